@@ -1,5 +1,6 @@
 """C15 — T-Digest quantile and cdf interpolate between the same knots; reads merge first."""
 from ..paths import PathEnumerator
+from ..guards import fv
 from ..terms import TermBuilder, fmt, mk, const, subterms, linear
 from ..guards import atomic_facts
 from .common import SELF, self_field
@@ -32,6 +33,10 @@ def mean_of(c):
 
 
 def run(ctx):
+    # a digest that keeps state across clear() answers for a mixture of the old and the new data: C19's clear rules for TDigest
+    from .C19 import run_clear_rules
+    run_clear_rules(ctx, only_adt="tdigest::TDigestInner", floor=1)
+    run_clear_rules(ctx, only_adt="tdigest::TDigest", floor=1)
     prog = ctx.prog
     q = ctx.anchor(TI + "::quantile")
     cdf = ctx.anchor(TI + "::cdf")
@@ -151,7 +156,7 @@ def run(ctx):
             why.append("t is not a quotient")
         facts = {repr(c): tr for c, tr in atomic_facts(cdf, prog, bi, tc)}
         guard = mk("Lt", x_p, mean_of(cur)) if kind == "interior" else mk("Lt", x_p, ("field", selfp, "max"))
-        if facts.get(repr(guard)) is not True:
+        if fv(facts, guard) is not True:
             why.append("site is not guarded by %s" % fmt(guard))
         ctx.check(not why, "R15-knots", "%s:%s" % (cdf.key, kind), t.span, "cdf %s segment interpolates between the same knots as quantile" % kind, "; ".join(why[:3]))
     rt = tc.return_term()
@@ -170,11 +175,11 @@ def run(ctx):
         facts = {repr(c): t for c, t in pe.path_facts(p)}
         rv = None
         # value of _0 on this path: look at last assignment — use events? use env-less approach: classify by facts
-        if facts.get(repr(lo_g)) is True:
+        if fv(facts, lo_g) is True:
             seen0 = True
             if any(e["kind"] == "call" and e["callee"] == ip.key for e in p.events):
                 probs.append("x < min still interpolates")
-        if facts.get(repr(hi_g)) is False and facts.get(repr(lo_g)) is False:
+        if fv(facts, hi_g) is False and fv(facts, lo_g) is False:
             seen1 = True
             if any(e["kind"] == "call" and e["callee"] == ip.key for e in p.events):
                 probs.append("x >= max still interpolates")
@@ -213,7 +218,7 @@ def run(ctx):
             if p.exit_kind != "return":
                 continue
             facts = {repr(c): t for c, t in pe.path_facts(p)}
-            if facts.get(repr(emp)) is True:
+            if fv(facts, emp) is True:
                 okm = not [e for e in p.events if e["kind"] == "write" and e["root"] == SELF and e["how"] != "borrow"]
                 break
         ctx.check(okm, "R15-merge-before-read", mg.key + ":idempotent", mg, "merge returns without writing when the backlog is empty", "merge modifies the digest even when the backlog is empty (repeated reads may differ)")
